@@ -27,6 +27,13 @@ def make_spec(seed, cfg):
     # every topology of the grammar is kept, including a depthwise conv fed by a concat and an add of a concat (their
     # components are frozen by the conversion since the C09 repair); they are counted in the evidence distribution
     spec = ga.gen(rng, dim=cfg['dim'], conv_head=True, bn=not cfg.get('integer'), k1d=[1, 2, 3, 3, 4, 5, 6, 7, 9])
+    if cfg.get('want'):
+        # a stream that needs a given producer -> BatchNorm pair (e.g. Linear followed by BatchNorm1d): keep deriving
+        # from the same random stream until the architecture has one
+        for _ in range(60):
+            if wanted_pairs(spec, cfg['want']):
+                break
+            spec = ga.gen(rng, dim=cfg['dim'], conv_head=False, bn=True, k1d=[1, 2, 3, 3, 4, 5, 6, 7, 9])
     if cfg.get('multi'):
         spec = add_second_input(spec)
     if cfg.get('twice'):
@@ -100,6 +107,11 @@ def add_second_call_site(spec, rng):
 def alias_call_sites(m, aliases):
     for a, orig in aliases:
         m.layers['n%d' % a] = m.layers['n%d' % orig]
+
+
+def wanted_pairs(spec, kind):
+    """nodes of kind `kind` ('linear' | 'conv1d' | 'conv2d') that are directly followed by a BatchNorm"""
+    return [c for c, b in bn_followers(spec).items() if spec['nodes'][c]['k'] == kind]
 
 
 def bn_followers(spec):
@@ -476,6 +488,9 @@ def run_case(torch, seed, cfg):
                 withbn = [i for i in convs if i in bnf]
                 if withbn and not any(i in bnf for i in which):
                     which.append(rng.choice(withbn))
+                for i in (wanted_pairs(spec, cfg['want']) if cfg.get('want') else []):
+                    if i in convs and i not in which:
+                        which.append(i)             # the pair this stream is about is hand-placed
                 if not which:
                     which = [rng.choice(convs)]
             ufold = cfg['fold'] if cfg.get('ufold', 'same') == 'same' else None
